@@ -118,6 +118,9 @@ func (x *Exec) enterLoopHeader(cfg *Config, f *Frame, from, to *ssa.BasicBlock, 
 	}
 	if isBack {
 		evalInv("preserved")
+		if active.ghost != nil {
+			x.loopGhostFrame(cfg, active, ord, to)
+		}
 		return false
 	}
 	// entry edge
@@ -195,7 +198,7 @@ func (x *Exec) enterLoopHeader(cfg *Config, f *Frame, from, to *ssa.BasicBlock, 
 			_ = name
 		}
 		x.pendingHavoc(st, mods, ord)
-		if mods["$calls"] {
+		if mods["$calls"] && !x.silentGhost() {
 			// ghost call / once / atomic / channel state, including arrays
 			// not materialised yet
 			x.havocGhostInLoop(st)
@@ -240,6 +243,18 @@ func (x *Exec) enterLoopHeader(cfg *Config, f *Frame, from, to *ssa.BasicBlock, 
 		}
 	}
 	le := &loopEntry{header: to, depth: f.depth}
+	if x.silentGhost() {
+		// the contract promises not to change ghost call/once/atomic/channel
+		// state: it is kept across the loop head, and every iteration has to
+		// leave it as it found it (checked at the back edge)
+		le.ghost = map[string]Term{}
+		for name, t := range st.heap {
+			if isGhostStateArr(name) {
+				le.ghost[name] = t
+			}
+		}
+		le.gepoch = st.gepoch
+	}
 	cfg.loops = append(cfg.loops, le)
 	f.prev = from
 	f.block = to
@@ -725,5 +740,67 @@ func (x *Exec) havocGhostInLoop(st *State) {
 			conds = append(conds, Neq(o, l))
 		}
 		st.assume(Forall([]Term{o}, Implies(And(conds...), Eq(Select(cur, o), Select(prev, o))), []Term{Select(cur, o)}))
+	}
+}
+
+// silentGhost: the contract of the function under verification neither
+// mentions nor frames ghost call/once/atomic/channel state.
+func (x *Exec) silentGhost() bool {
+	return x.c != nil && !contractTouchesGhostState(x.c) && !ghostExplicit(x.c)
+}
+
+// loopGhostFrame: at a back edge of a function whose contract is silent about
+// ghost state, the iteration must have left that state unchanged (for objects
+// that existed at function entry; call histories: entirely).
+func (x *Exec) loopGhostFrame(cfg *Config, le *loopEntry, ord int, h *ssa.BasicBlock) {
+	st := cfg.st
+	if st.gepoch != le.gepoch {
+		x.oblige(cfg, fmt.Sprintf("loop%d-ghost-frame", ord), "ghost call/once/atomic/channel state was forgotten wholesale inside the loop (the contract is silent about it)", False, nil, h.Instrs[0].Pos())
+		return
+	}
+	var eqs []Term
+	for _, name := range sortedKeys(st.heap) {
+		if !isGhostStateArr(name) {
+			continue
+		}
+		cur := st.heap[name]
+		old, had := le.ghost[name]
+		if !had {
+			old = x.d.Const("H0!"+name, cur.Sort)
+			if le.gepoch > 0 {
+				old = x.d.Const(fmt.Sprintf("G%d!%s", le.gepoch, name), cur.Sort)
+			}
+		}
+		if cur.S == old.S {
+			continue
+		}
+		if strings.HasPrefix(name, "$calls!") || strings.HasPrefix(name, "$callret!") {
+			eqs = append(eqs, Eq(cur, old))
+		} else {
+			o := Term{"o!gl", SInt}
+			eqs = append(eqs, Forall([]Term{o}, Implies(x.preexisting(o), Eq(Select(cur, o), Select(old, o)))))
+		}
+	}
+	if len(eqs) > 0 {
+		x.oblige(cfg, fmt.Sprintf("loop%d-ghost-frame", ord), "the iteration leaves ghost call/once/atomic/channel state unchanged (the contract is silent about it)", And(eqs...), nil, h.Instrs[0].Pos())
+	}
+}
+
+// resnapLoopGhost: a new section starts (interference by other goroutines has
+// just been applied): the ghost snapshots of the active loops restart too.
+func (x *Exec) resnapLoopGhost(cfg *Config) {
+	for i, old := range cfg.loops {
+		if old.ghost == nil {
+			continue
+		}
+		le := *old // entries are shared between forked paths: copy on write
+		cfg.loops[i] = &le
+		le.ghost = map[string]Term{}
+		for name, t := range cfg.st.heap {
+			if isGhostStateArr(name) {
+				le.ghost[name] = t
+			}
+		}
+		le.gepoch = cfg.st.gepoch
 	}
 }
